@@ -43,7 +43,8 @@ def proj_kripke(k, idx, amap_inv):
         states = sorted(k.states(), key=lambda s: idx.get(s, 10 ** 6) if _hashable(s) else 10 ** 6)
         return {'S': [idx.get(s, -1) for s in states], 'S0': sorted(idx.get(s, -1) for s in k.S0),
                 'R': sorted([idx.get(a, -1), idx.get(b, -1)] for a, b in k.transitions()),
-                'L': [sorted(repr(a) for a in k.labels(s)) for s in states]}
+                'L': [sorted(repr(a) for a in k.labels(s)) for s in states],
+                'attrs': sorted(vars(k))}          # a call must not leave new attributes (hidden state) on the caller's object
     except Exception as ex:
         return {'S': [-2], 'S0': [], 'R': [], 'L': [], 'error': type(ex).__name__ + ':' + str(ex)[:60]}
 
@@ -60,9 +61,20 @@ def proj_formula(obj):
     if isinstance(obj, str):
         return {'tree': ['text'], 'text': obj}
     try:
-        return {'tree': to_tree(obj), 'text': str(obj)}
+        return {'tree': to_tree(obj), 'text': str(obj), 'attrs': _attr_names(obj)}
     except Exception as ex:
         return {'tree': ['error'], 'text': type(ex).__name__}
+
+
+def _attr_names(obj):
+    names = set()
+    stack = [obj]
+    while stack:
+        o = stack.pop()
+        names.update(vars(o))
+        if o.__class__.__name__ not in ('Bool', 'AtomicProposition'):
+            stack.extend(o.subformulas())
+    return sorted(names)
 
 
 def run_history(h):
@@ -87,6 +99,8 @@ def run_history(h):
             fobj[key] = to_obj(f, LANGS[fl['logic']])
         return fobj[key]
     # every formula object exists from the start, so that its projection can be compared throughout
+    for b, bl in enumerate(h.get('bad', [])):
+        fobj[('bad', b + 1)] = to_obj(T(bl['f']), pymc.CTLS)
     for j in range(len(h['fs'])):
         for k in range(len(h['ks'])):
             formula(j, 'obj', k)
@@ -94,7 +108,7 @@ def run_history(h):
 
     def projection():
         return {'ks': [proj_kripke(k, idx, None) for k, _, idx in kobjs],
-                'fs': [proj_formula(fobj[key]) for key in sorted(fobj)],
+                'fs': [proj_formula(fobj[key]) for key in sorted(fobj, key=str)],
                 'res': {str(r): _proj_res(v, kobjs[kk][2]) for r, (v, kk) in results.items()}}
     events = [{'trace': h['trace'], 'i': 0, 'op': 'init', 'ks': h['ks'], 'fs': [{'logic': x['logic'], 'f': x['f']} for x in h['fs']],
                'proj': projection()}]
@@ -112,6 +126,17 @@ def run_history(h):
             ev['out'] = mcfam.project_result(out, idx)
             if out[0] == 'ret':
                 results[st['r']] = (out[1], k)
+        elif st['op'] == 'badcall':
+            k = st['k'] - 1
+            kobj, name, idx = kobjs[k]
+            n = h['ks'][k]['n']
+            fair = st['fair']
+            F = None if fair == 'none' else [set(name(i) for i in range(n))] if fair == 'all' else [] if fair == 'empty' else [set([name(0)])]
+            bl = h['bad'][st['b'] - 1]
+            if ('bad', st['b']) not in fobj:
+                fobj[('bad', st['b'])] = to_obj(T(bl['f']), pymc.CTLS)
+            out = mcfam.with_time_limit(lambda: call_mc(bl['logic'], kobj, fobj[('bad', st['b'])], F=F), h.get('limit', 20.0))
+            ev['out'] = {'exc': out[1]} if out[0] == 'exc' else {'ret': 'set'} if out[0] == 'ret' else {'skipped': 'timeout'}
         elif st['op'] == 'mutate':
             if st['r'] in results:
                 v, kk = results[st['r']]
